@@ -794,6 +794,18 @@ def generate(rng, tier):
         if rng.random() < 0.3:
             c["qtype"] = "npint"
         cases.append(c)
+    # outcome-count ladder (the property has no bound on the support): 512 .. 2187 outcomes, binary AND multi-level entries
+    # (0..2 / 0..9), marginals onto 2-4 positions in a non-ascending order
+    for nout in ([511, 512, 1023, 1024, 1025, 2187, 4096] if big else [1023, 1024, 1025, 2187]):
+        for base in (2, 3, 10):
+            w = {2: 12, 3: 7, 10: 4}[base] if nout <= {2: 4096, 3: 2187, 10: 10000}[base] else 12
+            if base ** w < nout:
+                continue
+            items, exact = _items(rng, w, nout, base, form=rng.choice(["tuple", "comma"]), mode=rng.choice(["dyadic_norm", "counts", "uniform"]))
+            qs = rng.sample(range(w), rng.choice([2, 2, 3, 4]))
+            if qs == sorted(qs):
+                qs.reverse()
+            cases.append({"kind": "subdist", "items": items, "normalize": True, "qubits": qs, "exact": exact})
     # ---- histories on long-lived objects
     for _ in range(800 if big else 120):
         cases.append(_gen_hist(rng, big))
